@@ -229,6 +229,11 @@ func (c *contentValidator) ValidatePermissionChange(ch *aclrecordproto.AclAccoun
 	if !exists {
 		return ErrNoSuchAccount
 	}
+	if currentState.Permissions.NoPermissions() {
+		// a removed, declined or merely requesting account is not re-permissioned: it has to be added or
+		// join again, which is what delivers the read keys to it
+		return ErrInsufficientPermissions
+	}
 
 	if currentState.Permissions == AclPermissionsGuest {
 		// it shouldn't be possible to change permission of guest user
